@@ -24,6 +24,7 @@ func init() {
 		Run: runC32,
 		Controls: []Control{
 			{Name: "psnp-leaves-placeholders-out", File: "protocols/isis/server/lsdb.go", Old: "\t\tif !lsp.getSSN(ifa) {\n\t\t\tcontinue\n\t\t}\n", New: "\t\tif !lsp.getSSN(ifa) || lsp.lspdu.SequenceNumber == 0 {\n\t\t\tcontinue\n\t\t}\n", Expect: "psnp-lists-every-ssn-entry"},
+			{Name: "flags-cleared-per-interface", File: "protocols/isis/server/lsdb.go", Old: "\t\t\tifa.sendPSNP(&psnp, l.level())\n\t\t}\n\t}\n\n\tl._clearAllSSNFlags()\n", New: "\t\t\tifa.sendPSNP(&psnp, l.level())\n\t\t}\n\t\tl._clearAllSSNFlags()\n\t}\n", Expect: "all-flags-cleared-after-all-interfaces"},
 			{Name: "placeholder-takes-the-advertised-number", File: "protocols/isis/server/lsdb_entry.go", Old: "\t\t\tSequenceNumber:    0,\n", New: "\t\t\tSequenceNumber:    lspEntry.SequenceNumber,\n", Expect: "placeholder-compares-lower-than-any-copy"},
 			{Name: "lookup-under-read-lock-store-under-write-lock", File: "protocols/isis/server/lsdb.go", Old: "\tl.lspsMu.Lock()\n\tdefer l.lspsMu.Unlock()\n\n\texistingLSDBEntry, exists := l.lsps[lspdu.LSPID]\n", New: "\tl.lspsMu.Lock()\n\texistingLSDBEntry, exists := l.lsps[lspdu.LSPID]\n\tl.lspsMu.Unlock()\n\tl.lspsMu.Lock()\n\tdefer l.lspsMu.Unlock()\n", Expect: "decision-and-store-are-one-step"},
 			{Name: "newer-lsp-replaced-in-place", File: "protocols/isis/server/lsdb.go", Old: "\tlsdbEntry := newLSDBEntry(lspdu)\n\n\tfor _, i := range l.srv.netIfaManager.getAllInterfacesExcept(ifa) {", New: "\tlsdbEntry, exists := l.lsps[lspdu.LSPID]\n\tif exists {\n\t\tlsdbEntry.lspdu = lspdu\n\t} else {\n\t\tlsdbEntry = newLSDBEntry(lspdu)\n\t}\n\n\tfor _, i := range l.srv.netIfaManager.getAllInterfacesExcept(ifa) {", Expect: "newer-copy-starts-from-clean-flags"},
@@ -40,6 +41,7 @@ func init() {
 }
 
 func runC32(c *core.Ctx) {
+	allFlagsClearedAfterAllInterfaces(c, "all-flags-cleared-after-all-interfaces")
 	newerCopyStartsFromCleanFlags(c)
 	placeholderHasSequenceZero(c)
 	psnpListsEverySSNEntry(c)
